@@ -12,6 +12,8 @@ Inductive case :=
 | CRd (a : list N) (off w : N) (out_r : N)
 (* bits::select(n, r) on the build's path (0 = BMI2/PDEP, 1 = portable) *)
 | CSel (path n r out : N)
+(* the implementation panicked (class k) on a valid (word, rank < popcount) pair *)
+| CSelCrash (path n r k : N)
 | CLow (n out : N) | CHigh (n out : N)
 | CBitLen (n out : N)
 | CRevLow (dbg : bool) (n bits : N) (out : ires N)
@@ -99,6 +101,7 @@ Definition check (c : case) : N :=
       let m_ok := res_is N.eqb m out &&
                   res_is N.eqb (select_pdep Debug n r) out && res_is N.eqb (select_portable Debug n r) out in
       code m_ok (onat_eqb (select_in_word n r) (Some out))
+  | CSelCrash _ _ _ _ => 3
   | CLow n out => code (res_is N.eqb (low_set n) out) (out =? N.ones n)
   | CHigh n out => code (res_is N.eqb (high_set n) out) (out =? N.shiftl (N.ones n) (64 - n))
   | CBitLen n out => code (bit_len n =? out) (out =? (if n =? 0 then 1 else N.log2 n + 1))
